@@ -506,4 +506,132 @@ def hasTyFields : Fields → Val → Bool
   | _, _ => false
 end
 
+/-! ## Declarable types, canonical types and values (hypotheses of the theorems) -/
+
+def okBits (b : Nat) : Bool := b == 8 || b == 16 || b == 32 || b == 64
+
+def Fields.hasNum : Fields → Nat → Bool
+  | .nil, _ => false
+  | .cons n _ _ rest, m => n == m || rest.hasNum m
+
+def Fields.nodupNums : Fields → Bool
+  | .nil => true
+  | .cons n _ _ rest => !rest.hasNum n && rest.nodupNums
+
+mutual
+/-- a type that can be written down in C++: integer widths 8/16/32/64, `T[N]` with `N ≥ 1`, field numbers
+`1 ≤ n < 2^29` (what fits a 32-bit tag), pairwise distinct (`case` labels), default member initialisers of the
+member's type -/
+def wfTy : Ty → Bool
+  | .bool | .f32 | .f64 | .str => true
+  | .int b _ => okBits b
+  | .enum b _ => okBits b
+  | .vec t => wfTy t
+  | .list t => wfTy t
+  | .set t => wfTy t
+  | .uptr t => wfTy t
+  | .sptr t => wfTy t
+  | .arr t n => wfTy t && decide (1 ≤ n)
+  | .map k w => wfTy k && wfTy w
+  | .agg _ fs => wfFields fs && fs.nodupNums
+def wfFields : Fields → Bool
+  | .nil => true
+  | .cons num t d rest => decide (1 ≤ num) && decide (num < 2 ^ 29) && wfTy t && hasTy t d && wfFields rest
+end
+
+def Ty.isPtr : Ty → Bool
+  | .uptr _ | .sptr _ => true
+  | _ => false
+
+/-- the packed encoding of an element of this type is never empty: a length-delimited type carries its length,
+a scalar its bytes; a smart pointer to a scalar can be null and then has no representation at all -/
+def Ty.packedNonEmpty (t : Ty) : Bool := t.isLD || !t.isPtr
+
+mutual
+/-- a default member initialiser that parsing can reset: anything for scalars, empty for strings / containers,
+null for pointers, member-wise for arrays and nested aggregates -/
+def resettable : Ty → Val → Bool
+  | .bool, .num _ | .int _ _, .num _ | .enum _ _, .num _ | .f32, .num _ | .f64, .num _ => true
+  | .str, .bytes b => b.isEmpty
+  | .vec _, .nil | .list _, .nil | .set _, .nil | .map _ _, .nil => true
+  | .uptr _, .null | .sptr _, .null => true
+  | .arr t n, v => allSeq (resettable t) v && v.length == n
+  | .agg _ fs, v => resettableFields fs v
+  | _, _ => false
+def resettableFields : Fields → Val → Bool
+  | .nil, .nil => true
+  | .cons _ t _ rest, .cons x xs => resettable t x && resettableFields rest xs
+  | _, _ => false
+end
+
+mutual
+/-- the types the round-trip theorem speaks about.  Excluded (and run on the real code as known findings): a member
+with a non-resettable default initialiser, and containers / arrays whose elements are smart pointers to a
+varint / fixed-width type. -/
+def canonTy : Ty → Bool
+  | .bool | .int _ _ | .enum _ _ | .f32 | .f64 | .str => true
+  | .vec t => canonTy t && t.packedNonEmpty
+  | .list t => canonTy t && t.packedNonEmpty
+  | .arr t _ => canonTy t && t.packedNonEmpty
+  | .set t => canonTy t && t.packedNonEmpty
+  | .map k w => canonTy k && canonTy w && k.packedNonEmpty && w.packedNonEmpty
+  | .uptr t => canonTy t
+  | .sptr t => canonTy t
+  | .agg _ fs => canonFields fs
+def canonFields : Fields → Bool
+  | .nil => true
+  | .cons _ t d rest => canonTy t && resettable t d && canonFields rest
+end
+
+def mapSeq (f : Val → Val) : Val → Val
+  | .cons h t => .cons (f h) (mapSeq f t)
+  | v => v
+
+def mapPairs (f g : Val → Val) : Val → Val
+  | .cons (.pair k v) t => .cons (.pair (f k) (g v)) (mapPairs f g t)
+  | v => v
+
+mutual
+/-- what a value reads back as: a smart pointer to a value whose encoding is empty reads back as null -/
+def norm : Ty → Val → Val
+  | .vec t, v => mapSeq (norm t) v
+  | .list t, v => mapSeq (norm t) v
+  | .arr t _, v => mapSeq (norm t) v
+  | .set t, v => mapSeq (norm t) v
+  | .map k w, v => mapPairs (norm k) (norm w) v
+  | .uptr t, .some x => if size t x = 0 then .null else .some (norm t x)
+  | .sptr t, .some x => if size t x = 0 then .null else .some (norm t x)
+  | .agg _ fs, v => normFields fs v
+  | _, v => v
+def normFields : Fields → Val → Val
+  | .cons _ t _ rest, .cons x xs => .cons (norm t x) (normFields rest xs)
+  | _, v => v
+end
+
+/-- pairwise distinct elements of a cons-chain -/
+def nodupSeq : Val → Bool
+  | .cons h t => !t.mem h && nodupSeq t
+  | _ => true
+
+def keysOf : Val → Val
+  | .cons (.pair k _) t => .cons k (keysOf t)
+  | _ => .nil
+
+mutual
+/-- canonical values: set elements / map keys pairwise distinct (as they read back) -/
+def canon : Ty → Val → Bool
+  | .vec t, v => allSeq (canon t) v
+  | .list t, v => allSeq (canon t) v
+  | .arr t _, v => allSeq (canon t) v
+  | .set t, v => allSeq (canon t) v && nodupSeq (mapSeq (norm t) v)
+  | .map k w, v => allPairs (canon k) (canon w) v && nodupSeq (keysOf (mapPairs (norm k) (norm w) v))
+  | .uptr t, .some x => canon t x
+  | .sptr t, .some x => canon t x
+  | .agg _ fs, v => canonRec fs v
+  | _, _ => true
+def canonRec : Fields → Val → Bool
+  | .cons _ t _ rest, .cons x xs => canon t x && canonRec rest xs
+  | _, _ => true
+end
+
 end Babylon.Wire
